@@ -1334,6 +1334,13 @@ void SPxSolverBase<R>::setType(Type tp)
 
          SPxBasisBase<R>::theLP = this;
 
+         // the vector pointers of the copied basis matrix still refer to the LP of base; redirect them to this LP
+         if(SPxBasisBase<R>::matrixIsSetup)
+         {
+            for(int i = 0; i < SPxBasisBase<R>::matrix.size(); ++i)
+               SPxBasisBase<R>::matrix[i] = &vector(this->baseId(i));
+         }
+
          assert(!freePricer || thepricer != nullptr);
          assert(!freeRatioTester || theratiotester != nullptr);
          assert(!freeStarter || thestarter != nullptr);
@@ -1551,6 +1558,13 @@ void SPxSolverBase<R>::setType(Type tp)
       }
 
       SPxBasisBase<R>::theLP = this;
+
+      // the vector pointers of the copied basis matrix still refer to the LP of base; redirect them to this LP
+      if(SPxBasisBase<R>::matrixIsSetup)
+      {
+         for(int i = 0; i < SPxBasisBase<R>::matrix.size(); ++i)
+            SPxBasisBase<R>::matrix[i] = &vector(this->baseId(i));
+      }
 
       if(base.thepricer == nullptr)
       {
